@@ -432,6 +432,20 @@ func (cy *vCycle) assertC01() {
 	}
 	for _, s := range cy.shards {
 		zzv.Assert("C01.post.nodup", !s.dupInPost)
+		// what is posted is a per-shard copy: never the long-lived discovery object itself, and
+		// never an object that another shard's request also carries
+		for h, t := range s.posted {
+			if d, ok := cy.active[h]; ok {
+				zzv.Assert("C01.post.notshared.discovery", t != d.ShardTarget && d.ShardTarget.TargetState == "" && d.ShardTarget.Series == 0)
+			}
+			for _, o := range cy.shards {
+				if o != s {
+					if t2, ok := o.posted[h]; ok {
+						zzv.Assert("C01.post.notshared.shards", t != t2)
+					}
+				}
+			}
+		}
 	}
 }
 
